@@ -121,6 +121,7 @@ fn specs(tier: Tier) -> Vec<EncSpec> {
                                     chroms: content.clone(),
                                     chrom_block,
                                     chrom_level_order: n % 2 == 1,
+                                    chrom_ids_in_given_order: (n / 2) % 2 == 1 && chrom_block >= content.len(),
                                     fanout,
                                     placement,
                                     zooms,
@@ -532,6 +533,7 @@ pub fn gen_c20(dir: &str, thorough: bool) {
             chroms: vec![EncChrom { name: "c".into(), size: CL, wig: items.chunks(2).map(|c| WigSec::T1(c.to_vec())).collect(), bed: vec![] }],
             chrom_block: 64,
             chrom_level_order: false,
+            chrom_ids_in_given_order: false,
             fanout: 2,
             placement: Placement::LevelOrder,
             zooms: vec![2, 4],
@@ -562,6 +564,7 @@ pub fn gen_c20(dir: &str, thorough: bool) {
             chroms: vec![EncChrom { name: "c".into(), size: CL, wig: vec![], bed: entries.chunks(2).map(|c| c.to_vec()).collect() }],
             chrom_block: 64,
             chrom_level_order: false,
+            chrom_ids_in_given_order: false,
             fanout: 2,
             placement: Placement::LevelOrder,
             zooms: vec![2, 4],
